@@ -44,6 +44,63 @@ def gen(ctx, n):
     return cases
 
 
+def describe1(c):
+    nw, nn = c[0], c[1]
+    return "%d waiter(s) on addresses %s, %d notifier(s) of addresses %s (notify_one with predicate), schedule %s" % (nw, c[2:2 + nw], nn, c[2 + nw:2 + nw + nn], "".join(map(str, c[2 + nw + nn:])))
+
+
+def gen1(ctx, n):
+    rng = ctx.rng
+    cases = []
+    for _ in range(n):
+        nw = rng.randint(2, 4)
+        nn = rng.randint(1, 3)
+        ctxs = [rng.randrange(2) for _ in range(nw)]
+        addrs = [rng.randrange(2) for _ in range(nn)]
+        slots = []
+        for t in range(nw):
+            slots += [[t]] * rng.randint(3, 10)
+        rng.shuffle(slots)
+        # most waiters are asleep before the notifiers come: the wait set then holds waiters of several addresses
+        singles = [[nw + k] for k in range(nn)]
+        pairs = [[nw + k, nw + k] for k in range(nn)]       # emptiness check + notification are one call in the real code: keep them adjacent
+        rng.shuffle(singles); rng.shuffle(pairs)
+        tail = singles + pairs
+        sched = [t for s in slots for t in s] + [t for s in tail for t in s]
+        for r in range(6):
+            sched += list(range(nw))
+        cases.append([nw, nn] + ctxs + addrs + sched)
+    return cases
+
+
+def oracle1(c, toks):
+    """a notification for address a issued while a waiter of address a is asleep in the wait set must wake one such waiter"""
+    if not toks or toks[-1] == "HANG" or toks[0].startswith("CRASH"):
+        return ("monitor-hang", describe1(c))
+    nw, nn = c[0], c[1]
+    ctxs = c[2:2 + nw]
+    addrs = c[2 + nw:2 + nw + nn]
+    k = toks.index("-7")
+    ev = [int(x) for x in toks[:k]]
+    inset = set()
+    for i in range(0, len(ev), 3):
+        t, code, v = ev[i:i + 3]
+        if code == 1:
+            inset.add(t)
+        elif code == 6 or code == 4:
+            inset.discard(t)
+        elif code == 9:
+            a = addrs[t - nw]
+            cand = [w for w in inset if ctxs[w] == a]
+            if cand and v == -1:
+                return ("monitor-notify-one-missed", "%s: notifier %d (address %d) woke nobody although waiter(s) %s of that address were in the wait set" % (describe1(c), t, a, sorted(cand)))
+            if v >= 0:
+                if ctxs[v] != a:
+                    return ("monitor-notify-one-wrong", "%s: notifier %d (address %d) woke waiter %d of address %d" % (describe1(c), t, a, v, ctxs[v]))
+                inset.discard(v)
+    return None
+
+
 def oracle(c, toks):
     """the property on this run: after all notifiers are done every waiter has returned (the tail of the schedule gives each waiter 8 more steps)"""
     if not toks or toks[-1] == "HANG" or toks[0].startswith("CRASH"):
@@ -70,6 +127,10 @@ def run(ctx):
                      "oracle: every waiter has returned at the end")
     diff_tie(ctx, "monitor-seq", exe, ["seq"], "mon", gen(ctx, ctx.scale(800, 20000)), oracle=oracle, describe=describe,
              bucket=lambda c: "monitor W=%d N=%d" % (c[0], c[1]))
+    ctx.rules.append("monitor-seq1: the same on-one-thread drive with waiters of two different addresses in one wait set and notifiers calling notify_one_relaxed(predicate) "
+                     "(the tbb::mutex / address-waiter path): events compared with Mon1Model; oracle: a notification for an address with a sleeping waiter wakes one waiter of that address")
+    diff_tie(ctx, "monitor-seq1", exe, ["seq1"], "mon1", gen1(ctx, ctx.scale(600, 15000)), oracle=oracle1, describe=describe1,
+             bucket=lambda c: "monitor1 W=%d N=%d" % (c[0], c[1]))
     bad = 0
     runs = []
     for r in range(ctx.scale(6, 80)):
